@@ -251,6 +251,11 @@ def p_damaged(ctx, scn, damage, retrieval):
         scn.extract(retrieval, ROOT + "/out", key="k")
         scn.fs_read(ROOT + "/out")
     scn.metadata("k")
+    # storing the same data again over the damaged copy, then reading it back
+    scn.write("k", data)
+    scn.read("k")
+    scn.write_hash(data)
+    scn.read_hash(r.value)
 
 
 def p_removals(ctx, scn, op):
